@@ -20,6 +20,7 @@ type vfCaseC18 struct {
 	Phases  []vfPhase
 	Release []int
 	Park    []string
+	Sibling bool `json:",omitempty"` // a second session served with the same option values runs alongside (seed C18-d)
 }
 
 // request kinds whose outcome does not depend on how the rw workers and the
@@ -88,6 +89,7 @@ func vfGenC18(t *rapid.T) vfCaseC18 {
 	}
 	c.Release = rapid.SliceOfN(rapid.IntRange(0, 15), 1, 24).Draw(t, "release")
 	c.Park = rapid.SampledFrom([][]string{{"ReadAt", "WriteAt"}, {"ReadAt"}, {"ReadAt", "WriteAt", "Filecmd"}, {}}).Draw(t, "park")
+	c.Sibling = rapid.IntRange(0, 2).Draw(t, "sibling") == 0
 	return c
 }
 
@@ -113,9 +115,66 @@ func vfC18Run(ctx *vfCtx, c *vfCaseC18, alloc bool) *vfC18Out {
 	cfg.Alloc = alloc
 	kind := cfg.Kind
 	out := &vfC18Out{}
+	if c.Sibling {
+		cfg.share = &vfSharedOpts{}
+	}
 	ps := vfStartProg(ctx, cfg, 7, 1)
 	defer ps.cleanup()
 	out.root = ps.root
+	// the sibling session: same option values, its own connection (and its own handler set); it only reads
+	var sib *vfSrv
+	var sibReqs []*vfPkt
+	var sibHandle []byte
+	if c.Sibling {
+		var h2 *vfH
+		if cfg.Kind == "rs" {
+			h2 = newVfH()
+			vfHTree(h2)
+		}
+		var err error
+		if sib, err = vfStartSrv(cfg, ps.root, h2); err != nil {
+			ctx.Failf("harness/sibling", "%v", err)
+		}
+		sib.Init(ctx)
+		op := &vfPkt{Type: vfFxpOpen, ID: 900000, Path: []byte(ps.env.prefix + "big"), Pflags: vfPfRead}
+		sib.Send(op)
+		sibReqs = append(sibReqs, &vfPkt{Type: vfFxpInit}, op)
+		if !sib.AwaitReplies(ctx, 2) {
+			ctx.Failf("C18/sibling/missing-replies/"+kind, "the sibling session's OPEN got no reply")
+		}
+		pk, _, _, _ := sib.Replies()
+		if pk[1].Type != vfFxpHandle {
+			ctx.Failf("harness/sibling", "sibling OPEN answered %s", vfPktString(pk[1]))
+		}
+		sibHandle = pk[1].Handle
+	}
+	sibBurst := func(n int) {
+		if sib == nil {
+			return
+		}
+		var pkts []*vfPkt
+		for i := 0; i < n; i++ {
+			p := &vfPkt{Type: vfFxpRead, ID: uint32(900001 + len(sibReqs)), Handle: sibHandle, Offset: uint64(977 * len(sibReqs) % 200000), Len: 1000}
+			pkts = append(pkts, p)
+			sibReqs = append(sibReqs, p)
+		}
+		sib.Send(pkts...)
+	}
+	sibCheck := func() {
+		if sib == nil {
+			return
+		}
+		if !sib.AwaitReplies(ctx, len(sibReqs)) {
+			ctx.Failf("C18/sibling/missing-replies/"+kind, "the sibling session got %d of %d responses (alloc=%v)", sib.link.S2C.Frames(), len(sibReqs), alloc)
+		}
+		pk, _, _, _ := sib.Replies()
+		for i := 2; i < len(sibReqs); i++ {
+			off := int(sibReqs[i].Offset)
+			if pk[i].Type != vfFxpData || pk[i].ID != sibReqs[i].ID || !bytes.Equal(pk[i].Data, vfBigFile[off:off+1000]) {
+				ctx.Failf("C18/sibling/wrong-data/"+kind, "sibling READ %d (offset %d) answered with %s (alloc=%v)", i, off, vfPktString(pk[i]), alloc)
+			}
+		}
+	}
 	if ps.root != "" {
 		vfC18FixTimes(ps.root)
 	}
@@ -157,7 +216,9 @@ func vfC18Run(ctx *vfCtx, c *vfCaseC18, alloc bool) *vfC18Out {
 			}
 			ps.srv.h.mu.Unlock()
 		}
+		sibBurst(len(pkts)/2 + 1)
 		ps.srv.Send(pkts...)
+		sibBurst(len(pkts)/2 + 1)
 		if ps.srv.h != nil && len(c.Park) > 0 {
 			h := ps.srv.h
 			k := 0
@@ -193,6 +254,7 @@ func vfC18Run(ctx *vfCtx, c *vfCaseC18, alloc bool) *vfC18Out {
 			ctx.Failf("C18/missing-replies/"+kind, "server idle after %d of %d responses (alloc=%v)\n%s\n%s", len(pk), len(ps.reqs), alloc, vfExchangeDump(ps.reqs, pk), vfDumpRelevant())
 		}
 		ps.learn(before)
+		sibCheck()
 		// quiescent with all responses delivered: only the receive buffer of the next packet may be in use
 		vfSettle(ctx)
 		if u, _ := used(); alloc && u > 1 {
@@ -200,6 +262,9 @@ func vfC18Run(ctx *vfCtx, c *vfCaseC18, alloc bool) *vfC18Out {
 		}
 	}
 	vfCheckReplies(ctx, ps, kind)
+	if sib != nil {
+		sib.Hangup(ctx, "C18/sibling/"+kind)
+	}
 	ps.srv.Hangup(ctx, "C18/"+kind)
 	if u, a := used(); alloc && (u != 0 || a != 0) {
 		ctx.Failf("C18/not-freed/"+kind, "after Serve returned the allocator still holds %d used and %d available pages", u, a)
